@@ -46,23 +46,39 @@ def src_hash(dotted):
     return None
 
 
-def run_worker(modname, hid, ci, tier, seed, timeout):
+def run_worker(modname, group, tier, seed, timeout):
+    """one worker process explores a group of (hid, case_idx) tasks; returns the list of results"""
     os.makedirs(os.path.join(WORK, 'tasks'), exist_ok=True)
-    out = os.path.join(WORK, 'tasks', f'{hid}-{ci}-{os.getpid()}.pkl')
-    if os.path.exists(out):
-        os.unlink(out)
-    cmd = [sys.executable, '-m', 'symopt.worker', modname, hid, str(ci), tier, str(seed), out]
+    out = os.path.join(WORK, 'tasks', f'w-{os.getpid()}-{threading.get_ident()}-{time.time_ns()}.pkl')
+    cmd = [sys.executable, '-m', 'symopt.worker', modname, json.dumps(group), tier, str(seed), out]
     t0 = time.time()
+    timed_out = False
+    err = ''
     try:
         p = subprocess.run(cmd, env=_env(), cwd=ROOT, capture_output=True, text=True, timeout=timeout)
         err = p.stderr[-2000:]
     except subprocess.TimeoutExpired:
-        return dict(hid=hid, case_idx=ci, timeout=True, wall=round(time.time() - t0, 1))
-    if not os.path.exists(out):
-        return dict(hid=hid, case_idx=ci, fatal='worker produced no output\n' + err)
-    with open(out, 'rb') as f:
-        res = pickle.load(f)
-    os.unlink(out)
+        timed_out = True
+    res = []
+    if os.path.exists(out):
+        with open(out, 'rb') as f:
+            while True:
+                try:
+                    res.append(pickle.load(f))
+                except EOFError:
+                    break
+                except Exception:
+                    break
+        os.unlink(out)
+    done = {(r['hid'], r['case_idx']) for r in res}
+    for hid, ci in group:
+        if (hid, ci) not in done:
+            if timed_out:
+                res.append(dict(hid=hid, case_idx=ci, timeout=True, wall=round(time.time() - t0, 1)))
+                timed_out = False   # only the task that was running is blamed; the rest are re-queued by the caller
+            else:
+                res.append(dict(hid=hid, case_idx=ci, fatal=None if any(r.get('timeout') for r in res) else 'worker produced no output\n' + err,
+                                requeue=any(r.get('timeout') for r in res)))
     return res
 
 
@@ -201,22 +217,43 @@ def main(argv=None):
     results = []
     lock = threading.Lock()
 
-    def do_task(t):
-        hid, ci, case = t
-        H = REGISTRY[hid]
-        tmo = H['timeout'] or (600 if tier == 'quick' else 3600)
-        r = run_worker(modname, hid, ci, tier, seed, tmo)
-        r['case'] = case
-        if a.verbose:
-            with lock:
-                print(f'  explored {hid}[{ci}] {case}: paths={len(r.get("paths", []))} pending={len(r.get("pending", []))} '
-                      f'wall={r.get("wall")}' + (' FATAL' if r.get('fatal') else '') + (' TIMEOUT' if r.get('timeout') else ''),
-                      flush=True)
-        return r
+    case_of = {(hid, ci): case for hid, ci, case in tasks}
 
+    def do_group(group):
+        tmo = max((REGISTRY[h]['timeout'] or (600 if tier == 'quick' else 3600)) for h, _ in group)
+        out = []
+        todo = list(group)
+        while todo:
+            rs = run_worker(modname, todo, tier, seed, tmo)
+            todo = []
+            for r in rs:
+                if r.get('requeue'):
+                    todo.append((r['hid'], r['case_idx']))
+                    continue
+                r['case'] = case_of[(r['hid'], r['case_idx'])]
+                out.append(r)
+                if a.verbose:
+                    with lock:
+                        print(f"  explored {r['hid']}[{r['case_idx']}] {r['case']}: paths={len(r.get('paths', []))} "
+                              f"pending={len(r.get('pending', []))} wall={r.get('wall')}" + (' FATAL' if r.get('fatal') else '')
+                              + (' TIMEOUT' if r.get('timeout') else ''), flush=True)
+        return out
+
+    # group the cases so that about 2 x jobs worker processes are started (import cost ~2.5 s each); heavy harnesses
+    # (declared timeout) get one process per case
+    ngroups = max(1, min(len(tasks), a.jobs * 2))
+    groups = [[] for _ in range(ngroups)]
+    light = [(h, c) for h, c, _ in tasks if not REGISTRY[h]['timeout']]
+    heavy = [(h, c) for h, c, _ in tasks if REGISTRY[h]['timeout']]
+    for i, t in enumerate(light):
+        groups[i % ngroups].append(t)
+    groups = [g for g in groups if g] + [[t] for t in heavy]
     with ThreadPoolExecutor(max_workers=max(1, a.jobs)) as ex:
-        results = list(ex.map(do_task, tasks))
+        results = [r for rs in ex.map(do_group, groups) for r in rs]
+    order = {(h, c): i for i, (h, c, _) in enumerate(tasks)}
+    results.sort(key=lambda r: order[(r['hid'], r['case_idx'])])
 
+    t_explore = round(time.time() - t_start, 1)
     harness_errors = []
     for r in results:
         if r.get('fatal'):
@@ -263,6 +300,7 @@ def main(argv=None):
                     harness_errors.append(f"{r['hid']}: solvers disagree on {o['name']}: {d['log']}")
                 else:
                     o['verdict'] = 'unknown'
+    t_discharge = round(time.time() - t_start, 1)
     # obligations that were concretely false but whose twin was pending
     for r in results:
         for path in r.get('paths', []):
@@ -339,6 +377,7 @@ def main(argv=None):
             if c not in todo and c[3]['verdict'] == 'cex':
                 c[3]['verdict'] = 'cex_duplicate'
 
+    t_replay = round(time.time() - t_start, 1)
     # ---- encoding validation: symbolic observations under a model vs the real code on the same inputs
     vscs = []
     vmeta = []
@@ -447,7 +486,8 @@ def main(argv=None):
     # ---- report
     print(f'== {prop} tier={tier} seed={seed}: {len(tasks)} harness cases, {n_paths} paths '
           f'({n_feasible} feasible, {n_infeasible} infeasible, {n_cut} cut, {n_exc} raising), '
-          f'{total_ob} obligations: {counts}; validated {validated}; wall {wall}s')
+          f'{total_ob} obligations: {counts}; validated {validated}; wall {wall}s '
+          f'(explore {t_explore}, +solve {t_discharge}, +replay {t_replay})')
     per_h = {}
     for r in results:
         d = per_h.setdefault(r['hid'], dict(cases=0, paths=0, obligations=0, proved=0, unknown=0, wall=0.0))
